@@ -4,8 +4,8 @@ CONSTANTS
   OffsMod = 65536
   Kind = "nameaddr"
   Atoms <- AtomsParams
-  Prefix <- PfxNone
-  MaxLen = 5
+  Prefix <- PfxABS
+  MaxLen = 7
   Cfgs <- CfgsNA18
   Junk = 34
   EmitOn = TRUE
